@@ -155,3 +155,30 @@ func IntRange(name string, lo, hi int) int {
 	Assume(x <= hi)
 	return x
 }
+
+// SymbolicTermios makes the terminal's initial mode settings arbitrary (engine: fresh
+// symbols for the four flag words and VMIN/VTIME; native: applied from the vector).
+func SymbolicTermios() { nativeApplyTermios() }
+
+// TermiosRestored reports whether the terminal mode settings equal those in force when the
+// session (or SymbolicTermios) set them up.
+func TermiosRestored() bool { return nativeTermiosRestored() }
+
+// CaptureVT returns a VT model that receives everything the library writes to the
+// terminal: through StdoutHook under the engine, from the pty output natively (FinishVT).
+func CaptureVT(w int) *VT {
+	v := NewVT(w)
+	if Symbolic() {
+		StdoutHook = func(fd int, s string) { v.Write(s, ASCIIWidth) }
+	}
+	return v
+}
+
+// FinishVT brings the model up to date with all output produced so far.
+func FinishVT(v *VT) {
+	if !Symbolic() {
+		nativeDrain()
+		*v = *NewVT(v.W)
+		v.Write(NativeOutput(), ASCIIWidth)
+	}
+}
